@@ -58,7 +58,7 @@ def make_jobs(ctx):
     for i in range(ngr):
         jobs.append(('net', {'seed': rng.randrange(1 << 30), 'kind': 'grammar', 'fold': i % 3 == 0, 'mode': rng.choice(['mix', 'mix', 'mix', 'min', 'all', 'adv']),
                              'integer': i % 2 == 0, 'dim': [1, 1, 2][i % 3]}))
-    ncu = 81 if ctx.quick else 900
+    ncu = 99 if ctx.quick else 1100
     for i in range(ncu):
         jobs.append(('net', {'seed': rng.randrange(1 << 30), 'kind': 'custom', 'variant': cn.VARIANTS[i % len(cn.VARIANTS)], 'fold': i % 3 == 1,
                              'mode': rng.choice(['mix', 'mix', 'min', 'adv']), 'integer': i % 2 == 0}))
